@@ -135,6 +135,7 @@ extern struct VfsStats vfs_stats;
 
 /* ---------------------------------------------------------- utilities */
 void sim_scrub_stack(void);
+void glue_gc_prime(int d);   /* cglue.c: make the calling thread's collector collect on its (d+1)-th next registration */
 uint64_t fnv1a(const void* data, size_t n, uint64_t h);
 #define FNV_INIT 1469598103934665603ULL
 
